@@ -467,3 +467,194 @@ Contract(
     note="may raise ValueError / RuntimeError / AttributeError from the callees (unknown pool, notify on inconsistent graph); those paths are not constrained",
     props=("C08", "C03", "C02", "C06"),
 )
+
+
+# =================================================================================================
+# __handle_task_release : the in-place re-timing of the pending SCHEDULER_START (C16 sim.retime.scheduler, C05 release.pulls_earlier)
+# =================================================================================================
+STRATS_ = "workload.strategy.ExecutionStrategies"
+SLOWEST = z3.Function("slowest_strategy", z3.IntSort(), z3.IntSort())
+Contract(
+    "workload.strategy.ExecutionStrategies.get_slowest_strategy",
+    params={"self": T.Ref(STRATS_)},
+    ret=S_.nullable("workload.strategy.ExecutionStrategy"),
+    trusted=True,
+    ensures=lambda c: c.res == SLOWEST(c.arg("self")),
+    note="ExecutionStrategies.get_slowest_strategy: a pure function of the strategy list (max by runtime); only logged here",
+    props=("C16", "C05"),
+)
+
+
+def nse(h, s):
+    return h.rd(s, SIM, "_next_scheduler_event")[1]
+
+
+def _hr_requires(c):
+    s, ev = c.arg("self"), c.arg("event")
+    return {
+        "heap_ok": is_heap(c.pre, sim_queue(c.pre, s)),
+        "task_event": ev_task(c.pre, ev) != 0,
+        "delay_nonneg": us(c.pre.rd(s, SIM, "_scheduler_delay")[1]) >= 0,
+    }
+
+
+def _hr_mod(c):
+    s, ev = c.arg("self"), c.arg("event")
+    out = lst_mod(c, sim_queue(c.pre, s))
+    task = ev_task(c.pre, ev)
+    for f in ("_release_time", "_state", "_pre_scheduling_state"):
+        out[c.pre.fld_arr(TASK, f)[0]] = [task]
+    out[c.pre.fld_arr(EVENT, "_time")[0]] = [nse(c.pre, s)]
+    return out
+
+
+def _hr_ens(c):
+    s, ev = c.arg("self"), c.arg("event")
+    lst = sim_queue(c.pre, s)
+    task = ev_task(c.pre, ev)
+    n = nse(c.pre, s)
+    e = z3.Int(H.fresh_name("hr_e"))
+    t0, t1 = us(ev_time(c.pre, n)), us(ev_time(c.post, n))
+    target = us(ev_time(c.pre, ev)) + us(c.pre.rd(s, SIM, "_scheduler_delay")[1])
+    pull = z3.And(task_state(c.post, task) < SCHEDULED, n != 0, z3.Not(c.pre.rd(s, SIM, "_run_scheduler_at_worker_free")[1]))
+    return {
+        # C16: whatever was re-timed in place, the queue is a valid heap again when the handler returns
+        "queue.heap_ok_after_retiming": is_heap(c.post, lst),
+        "queue.same_members": z3.ForAll([e], mem(c.post, lst, e) == mem(c.pre, lst, e), patterns=[mem(c.post, lst, e)]),
+        # C05: a release pulls the pending scheduler invocation to min(old time, release + delay), never later
+        "release.pulls_earlier": z3.Implies(n != 0, z3.If(pull, t1 == z3.If(t0 <= target, t0, target), t1 == t0)),
+        "release.task_released": z3.And(task_state(c.post, task) != VIRTUAL, c.post.rd(task, TASK, "_release_time")[1] == ev_time(c.pre, ev)),
+    }
+
+
+Contract(
+    "simulator.Simulator.__handle_task_release",
+    params={"self": Simulator.ty, "event": S_.Event.ty},
+    requires=_hr_requires,
+    may_raise=("ValueError", "AttributeError"),
+    raise_unchanged=False,
+    modifies=_hr_mod,
+    drops=("resources_str = ",),
+    ensures=_hr_ens,
+    entry_facts=lambda c: [closed_queue(c)],
+    note="may raise ValueError (task not releasable) / AttributeError (no strategies): not constrained",
+    props=("C16", "C05", "C02"),
+)
+
+
+# =================================================================================================
+# __create_events_from_task_placement : applying one PLACE_TASK decision by the task's prior state
+# (C16 sim.retime.placement, C06 decisions by prior state, C02/C03 placement event at the chosen time)
+# =================================================================================================
+PT_ = S_.PlacementType.ty
+Contract(
+    "workload.placement.Placement.task",
+    params={"self": T.Ref(PL)},
+    ret=S_.TASKR,
+    requires=lambda c: {"computation_is_a_task": z3.And(c.pre.rd(c.arg("self"), PL, "_computation")[1] != 0, c.pre.cls_tag(c.pre.rd(c.arg("self"), PL, "_computation")[1]) == CLASSES[TASK].code)},
+    raises={"RuntimeError": lambda c: z3.Not(z3.Or(c.pre.rd(c.arg("self"), PL, "_placement_type")[1] == PT_.ordinal("PLACE_TASK"), c.pre.rd(c.arg("self"), PL, "_placement_type")[1] == PT_.ordinal("CANCEL_TASK")))},
+    ensures=lambda c: {"placement.task.is_computation": c.res == c.pre.rd(c.arg("self"), PL, "_computation")[1]},
+    props=("C16", "C06"),
+)
+Contract("workload.placement.Placement.is_placed", inline=True, props=("C16", "C06"))
+
+Contract(
+    "simulator.Simulator.__create_events_from_task_placement_skip",
+    params={"self": Simulator.ty, "time": ETy, "placement": T.Ref(PL), "drop_skipped_tasks": T.BOOL},
+    ret=EL,
+    trusted=True,
+    allocates=True,
+    may_raise=("ValueError",),
+    modifies=lambda c: dict(
+        list(lst_mod(c, sim_queue(c.pre, c.arg("self"))).items())
+        + [(c.pre.fld_arr(TASK, f)[0], ANY) for f in ("_state", "_cancellation_time", "_probability", "_remaining_time", "_scheduling_time", "_scheduler_placement", "_worker_pool_id")]
+        + [(c.pre.carr(FutureMap, p)[0], [fut(c.pre, c.arg("self"))]) for p in ("len", "keys", "idx", "dom")]
+    ),
+    ensures=lambda c: z3.And(
+        c.res >= c.alloc0,
+        is_heap(c.post, sim_queue(c.pre, c.arg("self"))),
+        # it only creates TASK_CANCEL / TASK_RELEASE events
+        z3.ForAll(
+            [z3.Int("sk_j")],
+            z3.Implies(z3.And(0 <= z3.Int("sk_j"), z3.Int("sk_j") < c.post.c_len(EL, c.res)), ev_type(c.post, c.post.l_elem(EL, c.res, z3.Int("sk_j"))) != et("TASK_PLACEMENT")),
+            patterns=[c.post.l_elem(EL, c.res, z3.Int("sk_j"))],
+        ),
+    ),
+    note="__create_events_from_task_placement_skip (unplaced / skipped decisions: unschedule or cancel cascade): assumed to keep the queue a valid heap; its effect on task states is decided by the bounded worlds / taskgraph stand-ins",
+    props=("C16", "C06"),
+)
+
+
+def _ce_names(c):
+    s, pl = c.arg("self"), c.arg("placement")
+    task = c.pre.rd(pl, PL, "_computation")[1]
+    return s, pl, task
+
+
+def _ce_requires(c):
+    s, pl, task = _ce_names(c)
+    strat = c.pre.rd(pl, PL, "_strategy")[1]
+    placed = z3.Not(T.opt_is_none(S_.OptSTR, c.pre.rd(pl, PL, "_worker_pool_id")[1]))
+    return {
+        "heap_ok": is_heap(c.pre, sim_queue(c.pre, s)),
+        "task_present": z3.And(task > 0, c.pre.cls_tag(task) == CLASSES[TASK].code),
+        "placed_decision_complete": z3.Implies(placed, z3.And(strat != 0, us(c.pre.rd(strat, "workload.strategy.ExecutionStrategy", "_runtime")[1]) >= 0, some(c.pre.rd(pl, PL, "_placement_time")[1]))),
+        "task_wf": wf_task(c.pre, task),
+    }
+
+
+def _ce_mod(c):
+    s, pl, task = _ce_names(c)
+    out = lst_mod(c, sim_queue(c.pre, s))
+    for f in ("_state", "_cancellation_time", "_probability", "_remaining_time", "_scheduling_time", "_scheduler_placement", "_worker_pool_id"):
+        out[c.pre.fld_arr(TASK, f)[0]] = ANY
+    for p in ("len", "keys", "idx", "dom", "val"):
+        out[c.pre.carr(FutureMap, p)[0]] = [fut(c.pre, s)]
+    out[c.pre.fld_arr(EVENT, "_time")[0]] = ANY
+    out[c.pre.fld_arr(EVENT, "_placement")[0]] = ANY
+    return out
+
+
+def _ce_ens(c):
+    s, pl, task = _ce_names(c)
+    lst = sim_queue(c.pre, s)
+    st0, st1 = task_state(c.pre, task), task_state(c.post, task)
+    placed = z3.Not(T.opt_is_none(S_.OptSTR, c.pre.rd(pl, PL, "_worker_pool_id")[1]))
+    ptime = get(c.pre.rd(pl, PL, "_placement_time")[1])
+    r = c.res
+    j = z3.Int(H.fresh_name("ce_j"))
+    ej = c.post.l_elem(EL, r, j)
+    return {
+        # C16: the cached placement event may have been re-timed in place; the queue is a valid heap on return
+        "queue.heap_ok_after_retiming": is_heap(c.post, lst),
+        # C06: decisions are applied by prior state: a placed decision schedules a not-yet-started task, and a task that
+        # is running, completed or cancelled keeps its state
+        "decision.schedules_pending_task": z3.Implies(z3.And(placed, z3.Or(st0 == VIRTUAL, st0 == RELEASED, st0 == SCHEDULED)), st1 == SCHEDULED),
+        "decision.started_or_final_task_untouched": z3.Implies(z3.Or(st0 == RUNNING, st0 == COMPLETED, st0 == CANCELLED, st0 == EVICTED), st1 == st0),
+        # C02 / C03: a TASK_PLACEMENT event created here is for this task, carries this placement and fires at the chosen time
+        "events.placement_at_chosen_time": z3.ForAll(
+            [j],
+            z3.Implies(
+                z3.And(0 <= j, j < c.post.c_len(EL, r), ev_type(c.post, ej) == et("TASK_PLACEMENT")),
+                z3.And(ev_task(c.post, ej) == task, c.post.rd(ej, EVENT, "_placement")[1] == pl, us(ev_time(c.post, ej)) == us(ptime)),
+            ),
+            patterns=[c.post.l_elem(EL, r, j)],
+        ),
+    }
+
+
+Contract(
+    "simulator.Simulator.__create_events_from_task_placement",
+    params={"self": Simulator.ty, "event_time": ETy, "placement": T.Ref(PL)},
+    ret=EL,
+    requires=_ce_requires,
+    may_raise=("ValueError", "NotImplementedError", "RuntimeError", "AttributeError", "KeyError"),
+    raise_unchanged=False,
+    modifies=_ce_mod,
+    locals={"simulator_events": EL},
+    ensures=_ce_ens,
+    entry_facts=lambda c: [closed_queue(c)],
+    allocates=True,
+    note="exception paths (wrong placement type, PREEMPTED task, skip helper) are not constrained",
+    props=("C16", "C06", "C02", "C03"),
+)
